@@ -12,11 +12,24 @@ COQ_IMPORTS = ""
 SHARD = 60
 RULE = ("random masks (densities 0.1-0.9, plus single pixels, rings with holes, two components) inside frames up to 9x9 whose kernel "
         "footprint stays inside the frame; kernels kh,kw in {1,3,5,7} independently with signed integer / quarter entries, asymmetric; "
-        "images, blurring images and mapping matrices with integer, k/4 or tiny (k/8192) entries of either sign, dense and sparse (zeros included); for small masks the whole operator on every unit image / unit blurring image; a "
-        "separate malformed stream (even kernels, footprints leaving the frame). Entry points: Convolver.convolve_image / "
-        "convolve_image_no_blurring / convolve_mapping_matrix, Kernel2D.convolved_array_from / convolved_array_with_mask_from, "
-        "SimulatorImaging.via_image_from -> apply_mask -> convolver (zero residual). Non-trivial = at least 2 unmasked pixels and a "
-        "kernel with more than one non-zero entry; distinct = distinct JSON input.")
+        "images, blurring images and mapping matrices with integer, k/4, k/8192 or +-{1,3}*2^-30 entries of either sign, dense and sparse "
+        "(zeros included), whole cases rescaled by 2^-34 .. 2^40 (values and/or kernel), kernel entries k+-2^-30, vectors / matrix columns / "
+        "kernels whose non-zero entries cancel exactly; every fresh-object case first sends a decoy (mask rotated by 180 degrees, other kernel, "
+        "same shapes and pixel count) through the library so that remembered state shows up inside one replayable input; for small masks the whole operator on every unit "
+        "image / unit blurring image; a separate malformed stream (even and mixed-parity kernels, footprints leaving the frame). "
+        "HISTORY stream: one Convolver object used for a sequence of different inputs (image, second image, matrix, no-blurring, "
+        "image object edited in place, matrix edited in place, a second Convolver of the same shapes but other mask/kernel in between, "
+        "the first input object again, finally the Kernel2D and Mask2D objects edited in place and a NEW Convolver built from them), one Kernel2D "
+        "used for several whole-frame convolutions, results handed out earlier re-read at the end, with masks / kernels / images that are "
+        "DERIVED objects (edited in place after their derived attributes were read, from_pixel_coordinates, copies, arithmetic results, "
+        "store_native=True, apply_mask of an unmasked array) and a check after every call that no argument was modified. "
+        "SIMULATOR stream: SimulatorImaging with noise off and background_sky_level in {0, 2^-20 .. 100}, subtract_background_sky on/off, "
+        "normalize_psf on/off (kernel sums +-2^j), exposure times 0.5..1000, Poisson noise-map on/off, noise_if_add_noise_false, seeds; "
+        "the same simulator for two images and the first again; then Imaging.apply_mask (fresh / re-masking a masked dataset / the same "
+        "mask object edited in place; interior masks and masks touching the frame edge = padded datasets) and the masked dataset's "
+        "convolver. Entry points: Convolver.convolve_image / convolve_image_no_blurring / convolve_mapping_matrix, "
+        "Kernel2D.convolved_array_from / convolved_array_with_mask_from, SimulatorImaging.via_image_from -> apply_mask -> convolver. "
+        "Non-trivial = at least 2 unmasked pixels and a kernel with more than one non-zero entry; distinct = distinct JSON input.")
 EXHAUSTIVE = {}
 TRUSTED = ["hand-written Gallina model coq/Model/C03.v (frame tables + scatter loops), tied to /repo by this correspondence run (exact "
            "rational comparison evaluated inside Coq by vm_compute)",
@@ -25,7 +38,8 @@ TRUSTED = ["hand-written Gallina model coq/Model/C03.v (frame tables + scatter l
            "blurring_mask_2d_from is modelled by its input/output contract (C10 proves the contract of the loop)",
            "doubles: all generated values are integers or quarters of small magnitude so every product/sum is exact"]
 ASSUMPTIONS = ["real arithmetic (no rounding): theorems over R, correspondence on exactly representable inputs",
-               "the simulator -> apply_mask -> convolver pipeline (padding, trimming) is correspondence-only"]
+               "the simulator's noise-free path and apply_mask are modelled (KSim, KMasked); the padding of apply_mask for masks touching "
+               "the frame edge and the noise-map are correspondence-only (Python-side relations + the Coq cases on the padded frame)"]
 
 KS = [1, 3, 5, 7]
 
@@ -54,17 +68,56 @@ def rand_mask(rng, H, W, kh, kw, style):
             y, x = rng.choice(cells); m[y][x] = False
     return m
 
-def rand_vals(rng, n, sparse):
+def rand_vals(rng, n, sparse, ints=False):
     out = []
     for _ in range(n):
         if sparse and rng.random() < 0.5: out.append(Fraction(0))
+        elif ints: out.append(Fraction(rng.randint(-9, 9)))
         elif rng.random() < 0.12: out.append(Fraction(rng.choice([-3, -1, 1, 3]), 8192))   # tiny but non-zero (a sparsity threshold would drop it)
+        elif rng.random() < 0.07: out.append(Fraction(rng.choice([-3, -1, 1, 3]), 2 ** 30))  # below 1e-8
         elif rng.random() < 0.3: out.append(Fraction(rng.randint(-20, 20), 4))
         else: out.append(Fraction(rng.randint(-9, 9)))
     return out
 
+def zero_sum(v, unit=Fraction(1)):
+    """make a non-zero vector whose entries cancel exactly (a `sum == 0 means empty` shortcut would drop it)"""
+    v = list(v)
+    if len(v) >= 2:
+        if v[0] == 0: v[0] = unit
+        v[-1] = -sum(v[:-1])
+    return v
+def p2(e): return Fraction(2) ** int(e)
+def sk(K): return [[str(v) for v in r] for r in K]
+def blur_count(m, kh, kw):
+    H, W = len(m), len(m[0])
+    return sum(1 for y in range(H) for x in range(W) if m[y][x] and any(
+        not m[yy][xx] for yy in range(max(0, y - kh // 2), min(H, y + kh // 2 + 1))
+        for xx in range(max(0, x - kw // 2), min(W, x + kw // 2 + 1))))
+def footprints_inside(m, kh, kw):
+    H, W = len(m), len(m[0])
+    return all(m[y][x] or (y - kh // 2 >= 0 and y + kh // 2 < H and x - kw // 2 >= 0 and x + kw // 2 < W)
+               for y in range(H) for x in range(W))
+def conv_ref(img, K):
+    """true 2-D convolution on Fractions (zero outside the frame); used by the GENERATOR only (to pick a sky level that keeps
+    the Poisson rates non-negative), never as an oracle"""
+    H, W, kh, kw = len(img), len(img[0]), len(K), len(K[0])
+    out = [[Fraction(0)] * W for _ in range(H)]
+    for y in range(H):
+        for x in range(W):
+            t = Fraction(0)
+            for a in range(kh):
+                for b in range(kw):
+                    yy, xx = y + kh // 2 - a, x + kw // 2 - b
+                    if 0 <= yy < H and 0 <= xx < W: t += K[a][b] * img[yy][xx]
+            out[y][x] = t
+    return out
+
+MASK_HOW = ["plain", "edited", "coords", "copy"]
+KERNEL_HOW = ["plain", "edited", "arith", "native"]
+IMAGE_HOW = ["plain", "arith", "native", "applied", "edited", "neg"]
+
 def gen_inputs(tier, rng):
-    n = 2000 if tier == "thorough" else 180
+    n = 1800 if tier == "thorough" else 170
     styles = ["random", "random", "random", "single", "ring", "full"]
     for i in range(n):
         kh, kw = rng.choice(KS), rng.choice(KS)
@@ -74,39 +127,113 @@ def gen_inputs(tier, rng):
         K = rand_kernel(rng, kh, kw, quarters=(i % 5 == 0))
         nun = sum(1 for r in m for b in r if not b)
         seed = rng.randrange(10 ** 9)
+        # magnitudes: the whole case rescaled by a power of two (exact): values down to ~1e-10 / up to ~1e13, tiny / huge kernels
+        vs = rng.choice([-34, -30, 30, 40]) if i % 7 in (1, 6) else 0
+        ks = rng.choice([-30, 30]) if i % 7 in (4, 6) else 0
+        # kernel entries that need more than 24 significant bits (k +- 2^-30), with integer images so that every sum stays exact
+        if i % 13 == 5: K[kh // 2][kw // 2] -= sum(v for r in K for v in r)         # kernel entries cancel exactly
+        fine = (i % 11 == 2)
+        if fine: K = [[v + Fraction(rng.choice([-1, 0, 1, 3]), 2 ** 30) for v in r] for r in K]
         for op in (["convolve", "noblur", "matrix", "init"] if i % 3 else ["convolve", "matrix", "whole", "init"]):
-            yield {"op": op, "m": m, "K": [[str(v) for v in r] for r in K], "seed": seed, "sparse": bool(i % 2)}
+            yield {"op": op, "m": m, "K": sk(K), "seed": seed, "sparse": bool(i % 2), "vs": vs, "ks": ks, "ints": fine, "zs": i % 4 == 1}
         # the whole operator, extracted on basis images (unit image / unit blurring image), for small masks
-        nb = sum(1 for y in range(H) for x in range(W) if m[y][x] and any(
-            not m[yy][xx] for yy in range(max(0, y - kh // 2), min(H, y + kh // 2 + 1))
-            for xx in range(max(0, x - kw // 2), min(W, x + kw // 2 + 1))))
+        nb = blur_count(m, kh, kw)
         if i % 6 == 3 and nun + nb <= 14:
             for k in range(nun + nb):
-                yield {"op": "convolve", "m": m, "K": [[str(v) for v in r] for r in K], "seed": seed, "sparse": False, "basis": k}
-    # malformed stream: even kernels, footprints leaving the frame
+                yield {"op": "convolve", "m": m, "K": sk(K), "seed": seed, "sparse": False, "basis": k}
+    # malformed stream: even kernels (incl. mixed parity 3x4, 1x2, 5x6 ...), footprints leaving the frame
     for i in range(60 if tier == "thorough" else 20):
         kh, kw = rng.choice([1, 2, 3, 4, 5]), rng.choice([1, 2, 3, 4, 5])
+        if i % 5 == 0: kh, kw = rng.choice([(3, 4), (1, 2), (5, 6), (4, 3), (2, 1), (6, 5)])
         H, W = rng.randint(3, 6), rng.randint(3, 6)
         m = [[rng.random() < 0.5 for _ in range(W)] for _ in range(H)]
         if all(all(r) for r in m): m[0][0] = False
         K = rand_kernel(rng, kh, kw)
-        yield {"op": "init", "m": m, "K": [[str(v) for v in r] for r in K], "seed": 0, "sparse": False}
+        yield {"op": "init", "m": m, "K": sk(K), "seed": 0, "sparse": False}
         # Kernel2D.convolved_array(_with_mask)_from has its own odd-kernel check and no footprint condition
-        yield {"op": "whole", "m": m, "K": [[str(v) for v in r] for r in K], "seed": i, "sparse": False}
-    for i in range(40 if tier == "thorough" else 6):
+        yield {"op": "whole", "m": m, "K": sk(K), "seed": i, "sparse": False}
+    # history stream: one Convolver / one Kernel2D through a sequence of inputs, derived and edited objects
+    for i in range(200 if tier == "thorough" else 22):
+        kh, kw = rng.choice([1, 3, 3, 5]), rng.choice([1, 3, 3, 5])
+        H = rng.randint(kh + 1, min(8, kh + 4)); W = rng.randint(kw + 1, min(8, kw + 4))
+        m = rand_mask(rng, H, W, kh, kw, rng.choice(styles[:5]))
+        m2 = rand_mask(rng, H, W, kh, kw, "random")
+        if m is None or m2 is None: continue
+        yield {"op": "hist", "m": m, "m2": m2, "K": sk(rand_kernel(rng, kh, kw, quarters=(i % 4 == 0))),
+               "K2": sk(rand_kernel(rng, kh, kw)), "seed": rng.randrange(10 ** 9), "sparse": bool(i % 2),
+               "vs": rng.choice([0, 0, 0, -30, 30]), "ks": 0,
+               "how": {"mask": MASK_HOW[i % 4], "kernel": KERNEL_HOW[(i // 2) % 4], "image": IMAGE_HOW[i % 6]}}
+    # simulator stream (noise off): non-default configurations, one simulator for several images, apply_mask histories
+    for i in range(240 if tier == "thorough" else 30):
+        yield gen_sim(rng, i)
+    for i in range(40 if tier == "thorough" else 4):
         yield {"op": "simulate", "seed": rng.randrange(10 ** 9)}
+
+def gen_sim(rng, i):
+    kh, kw = rng.choice([1, 3, 3, 5]), rng.choice([1, 3, 3, 5])
+    if i % 9 == 4: kh, kw = rng.choice([(3, 4), (1, 2), (5, 6), (2, 3), (4, 4), (2, 1)])     # rejected kernels
+    even = kh % 2 == 0 or kw % 2 == 0
+    edge = (i % 5 in (1, 3))                # a mask touching the frame edge: apply_mask pads the dataset
+    H = rng.randint(kh + 1, max(kh + 1, 6 if edge else 8)); W = rng.randint(kw + 1, max(kw + 1, 6 if edge else 8))
+    normalize = bool(rng.random() < 0.5)
+    sky = Fraction(0) if i % 4 == 3 else rng.choice([Fraction(1, 4), Fraction(1), Fraction(5, 2), Fraction(10), Fraction(75, 2),
+                                                     Fraction(100), Fraction(1, 2 ** 20), Fraction(3, 2 ** 30)])
+    signed = sky != 0 and rng.random() < 0.6
+    K = rand_kernel(rng, kh, kw, quarters=(i % 5 == 0))
+    if not signed: K = [[abs(v) for v in r] for r in K]
+    if normalize:
+        # np.sum(kernel) must be +-2^j so that the division is exact
+        s0 = sum(v for r in K for v in r)
+        tgt = rng.choice([Fraction(1), Fraction(2), Fraction(4), Fraction(8), Fraction(1, 2)] + ([Fraction(-1), Fraction(-4)] if signed else []))
+        if not signed:
+            while tgt < s0: tgt *= 2
+        K[kh // 2][kw // 2] += tgt - s0
+    elif all(v == 0 for r in K for v in r) and rng.random() < 0.7:
+        K[kh // 2][kw // 2] = Fraction(1)
+    nimg = 1 if i % 2 else 2
+    images = []
+    for _ in range(nimg):
+        q = rng.random() < 0.3
+        images.append([[(Fraction(rng.randint(-36 if signed else 0, 36), 4) if q else Fraction(rng.randint(-9 if signed else 0, 9)))
+                        for _ in range(W)] for _ in range(H)])
+    exposure = rng.choice([0.5, 1.0, 1.0, 2.0, 2.5, 300.0, 1000.0])
+    include_pn = sky != 0 and rng.random() < 0.4
+    if not even:
+        s = sum(v for r in K for v in r)
+        P = [[v / s for v in r] for r in K] if normalize else K
+        lo = min(v for im in images for r in conv_ref(im, P) for v in r)
+        need = -lo if lo < 0 else Fraction(0)
+        if include_pn: need += Fraction(64) / Fraction(exposure)     # Poisson draws of 0 counts would give a zero noise-map
+        if sky < need: sky = Fraction(int(need) + 1) + (sky if sky < 1 else 0)
+    subtract = None if i % 10 < 4 else bool(i % 10 < 8)           # None = argument omitted (default True)
+    masks = []
+    for j in range(1 if i % 2 else 2):
+        if edge and j == 0:
+            mm = [[rng.random() < 0.6 for _ in range(W)] for _ in range(H)]
+            mm[rng.choice([0, H - 1])][rng.randrange(W)] = False
+        else:
+            mm = rand_mask(rng, H, W, 1 if even else kh, 1 if even else kw, "random")
+        masks.append(mm)
+    return {"op": "sim", "K": sk(K), "images": [sk(im) for im in images], "sky": str(sky), "exposure": exposure,
+            "subtract": subtract, "normalize": normalize, "include_pn": include_pn,
+            "noise_false": rng.choice([None, 1.0, 2.0, 0.125]), "noise_seed": rng.choice([1, 7, -1]),
+            "masks": masks, "remask": ["fresh", "chain", "inplace"][i % 3], "img_how": ["plain", "arith", "native"][(i // 2) % 3]}
 
 def cmask(m): return clist([clist([cbool(b) for b in r]) for r in m])
 def cqv(v): return clist([cq(x) for x in v])
 def cqm(M): return clist([cqv(r) for r in M])
 def fl(v): return [float(x) for x in v]
+def fracs(a): return [frac(x) for x in np.asarray(a, dtype=float).ravel()]
 
 def run_case(inp):
     import random
     aa = import_aa()
     op = inp["op"]
     if op == "simulate": return run_simulate(aa, inp)
-    m = inp["m"]; K = [[Fraction(v) for v in r] for r in inp["K"]]
+    if op == "sim": return run_sim(aa, inp)
+    if op == "hist": return run_hist(aa, inp)
+    vs, ks = p2(inp.get("vs", 0)), p2(inp.get("ks", 0))
+    m = inp["m"]; K = [[Fraction(v) * ks for v in r] for r in inp["K"]]
     rng = random.Random(inp["seed"])
     ma = np.array(m, dtype=bool)
     nun = int((~ma).sum())
@@ -115,7 +242,10 @@ def run_case(inp):
     mask = aa.Mask2D(mask=ma, pixel_scales=1.0)
     nontrivial = nun >= 2 and sum(1 for r in K for v in r if v != 0) > 1
     base = {"kind": op, "nontrivial": nontrivial}
+    decoy = lambda: call_res(aa.Convolver, mask=aa.Mask2D(mask=ma[::-1, ::-1].copy(), pixel_scales=1.0),
+                             kernel=aa.Kernel2D.no_mask(values=[fl([v + 1 for v in r[::-1]]) for r in K[::-1]], pixel_scales=1.0))
     if op == "init":
+        decoy()
         try:
             c = aa.Convolver(mask=mask, kernel=kernel)
             out = ("ok", (int(c.pixels_in_mask), int(c.pixels_in_blurring_mask), [[bool(b) for b in r] for r in c.blurring_mask]))
@@ -124,8 +254,12 @@ def run_case(inp):
         coq = f"(KInit {cmask(m)} {cqm(K)} " + cres(out, lambda v: ctup([cnat(v[0]), cnat(v[1]), cmask(v[2])])) + ")"
         return dict(base, coq=coq, out=str(out)[:300])
     if op == "whole":
-        native = [[Fraction(rng.randint(-9, 9)) for _ in range(len(m[0]))] for _ in range(len(m))]
+        native = [[Fraction(rng.randint(-9, 9)) * vs for _ in range(len(m[0]))] for _ in range(len(m))]
+        if inp.get("zs"):
+            flat = zero_sum([v for r in native for v in r], vs); native = [flat[y * len(m[0]):(y + 1) * len(m[0])] for y in range(len(m))]
         arr = aa.Array2D.no_mask(values=[fl(r) for r in native], pixel_scales=1.0)
+        call_res(aa.Kernel2D.no_mask(values=[fl([v + 1 for v in r[::-1]]) for r in K[::-1]], pixel_scales=1.0).convolved_array_from,
+                 array=aa.Array2D.no_mask(values=[fl(r[::-1]) for r in native[::-1]], pixel_scales=1.0))     # decoy (see below)
         if inp["seed"] % 2:
             res = call_res(kernel.convolved_array_with_mask_from, array=arr.native, mask=mask)
         else:
@@ -135,12 +269,20 @@ def run_case(inp):
             res = call_res(kernel.convolved_array_from, array=arr)
         out = ("ok", [frac(x) for x in np.array(res[1].slim)]) if res[0] == "ok" else res
         return dict(base, coq=f"(KWhole {cmask(m)} {cqm(native)} {cqm(K)} {cres(out, cqv)})", out=str(out)[:300])
+    # decoy first: another mask (rotated by 180 degrees: same shape, same pixel count, footprints still inside) and another kernel
+    # of the same shape go through the library before the observed objects, so that state remembered from an earlier
+    # construction (a cache keyed by shapes / counts) shows up in this very input and the replay is self-contained
+    decoy()
     c = aa.Convolver(mask=mask, kernel=kernel)
-    img = rand_vals(rng, nun, inp["sparse"])
+    ints = bool(inp.get("ints"))
+    img = [v * vs for v in rand_vals(rng, nun, inp["sparse"], ints)]
+    zs = bool(inp.get("zs"))
+    if zs: img = zero_sum(img, vs)
     if op == "convolve":
         bm = mask.derive_mask.blurring_from(kernel_shape_native=(kh, kw))
         nb = int(bm.pixels_in_mask)
-        bimg = rand_vals(rng, nb, inp["sparse"])
+        bimg = [v * vs for v in rand_vals(rng, nb, inp["sparse"], ints)]
+        if zs: bimg = zero_sum(bimg, vs)
         if inp.get("basis") is not None:
             e = [Fraction(int(j == inp["basis"])) for j in range(nun + nb)]
             img, bimg = e[:nun], e[nun:nun + nb]
@@ -154,11 +296,304 @@ def run_case(inp):
         return dict(base, coq=f"(KNoBlur {cmask(m)} {cqm(K)} {cqv(img)} {cqv(out)})", out=[str(x) for x in out])
     if op == "matrix":
         P = rng.randint(1, 4)
-        M = [rand_vals(rng, P, inp["sparse"]) for _ in range(nun)]
+        M = [[v * vs for v in rand_vals(rng, P, inp["sparse"], ints)] for _ in range(nun)]
+        if zs or inp["seed"] % 3 == 0:
+            col = zero_sum([r[0] for r in M], vs)
+            for r, v in zip(M, col): r[0] = v
         res = c.convolve_mapping_matrix(mapping_matrix=np.array([fl(r) for r in M]))
         out = [[frac(x) for x in r] for r in np.asarray(res)]
         return dict(base, coq=f"(KMatrix {cmask(m)} {cqm(K)} {cqm(M)} {cqm(out)})", out=[[str(x) for x in r] for r in out])
     raise ValueError(op)
+
+# ------------------------------------------------------------------ derived / edited objects (what the user may hand in)
+def build_mask(aa, m, how, other):
+    """a Mask2D whose CURRENT contents are m. `edited`: built with other contents, derived attributes read, then set pixel by pixel"""
+    H, W = len(m), len(m[0])
+    if how == "edited":
+        mask = aa.Mask2D(mask=np.array(other, dtype=bool), pixel_scales=1.0)
+        _ = (mask.pixels_in_mask, mask.derive_indexes.native_for_slim, mask.is_all_false, mask.shape_native)
+        try: _ = mask.derive_mask.blurring_from(kernel_shape_native=(1, 1))
+        except Exception: pass
+        for y in range(H):
+            for x in range(W):
+                if bool(mask[y, x]) != m[y][x]: mask[y, x] = m[y][x]
+        return mask
+    if how == "coords":
+        return aa.Mask2D.from_pixel_coordinates(shape_native=(H, W), pixel_scales=1.0,
+                                                pixel_coordinates=[[y, x] for y in range(H) for x in range(W) if not m[y][x]])
+    if how == "copy":
+        first = aa.Mask2D(mask=np.invert(np.array(m, dtype=bool)), pixel_scales=1.0)
+        return aa.Mask2D(mask=np.array(first), pixel_scales=1.0, invert=True)
+    return aa.Mask2D(mask=np.array(m, dtype=bool), pixel_scales=1.0)
+
+def build_kernel(aa, K, how, rng):
+    kh, kw = len(K), len(K[0])
+    if how == "edited":
+        k = aa.Kernel2D.no_mask(values=[[float(rng.randint(-3, 3)) for _ in range(kw)] for _ in range(kh)], pixel_scales=1.0)
+        _ = (np.array(k.native), k.shape_native, np.array(k.slim))
+        for j, v in enumerate(v for r in K for v in r): k[j] = float(v)
+        return k
+    if how == "arith":
+        A = [[K[a][b] * rng.choice([2, -1, 3, 0]) for b in range(kw)] for a in range(kh)]
+        ka = aa.Kernel2D.no_mask(values=[fl(r) for r in A], pixel_scales=1.0)
+        kb = aa.Kernel2D.no_mask(values=[fl([K[a][b] - A[a][b] for b in range(kw)]) for a in range(kh)], pixel_scales=1.0)
+        return ka + kb
+    if how == "native":
+        return aa.Kernel2D(values=np.array([fl(r) for r in K]), mask=aa.Mask2D.all_false(shape_native=(kh, kw), pixel_scales=1.0),
+                           store_native=True)
+    return aa.Kernel2D.no_mask(values=[fl(r) for r in K], pixel_scales=1.0)
+
+def build_array(aa, vals, mask, m, how, rng):
+    """an Array2D on `mask` whose CURRENT slim contents are vals"""
+    n = len(vals)
+    if n == 0: return aa.Array2D(values=np.zeros(0), mask=mask)
+    if how == "arith":
+        A = [v * rng.choice([2, -1, 3, 0]) for v in vals]          # a + (v - a): both summands and the sum are exact
+        return aa.Array2D(values=fl(A), mask=mask) + aa.Array2D(values=fl([v - a for v, a in zip(vals, A)]), mask=mask)
+    if how in ("native", "applied"):
+        nat = np.zeros((len(m), len(m[0]))); it = iter(vals)
+        for y in range(len(m)):
+            for x in range(len(m[0])):
+                nat[y, x] = float(next(it)) if not m[y][x] else (0.0 if how == "native" else float(rng.randint(1, 9)))
+        if how == "native": return aa.Array2D(values=nat, mask=mask, store_native=True)
+        return aa.Array2D.no_mask(values=nat, pixel_scales=1.0).apply_mask(mask=mask)
+    if how == "edited":
+        a = aa.Array2D(values=[float(rng.randint(-5, 5)) for _ in range(n)], mask=mask)
+        _ = (np.array(a.native), np.array(a.slim))
+        for j, v in enumerate(vals): a[j] = float(v)
+        return a
+    if how == "neg":
+        return -aa.Array2D(values=fl([-v for v in vals]), mask=mask)
+    return aa.Array2D(values=fl(vals), mask=mask)
+
+def run_hist(aa, inp):
+    """ONE Convolver (and one Kernel2D) through a history of calls; every observation must be the pure function of the current
+    contents of its arguments, and no argument may be modified by a call"""
+    import random
+    rng = random.Random(inp["seed"])
+    vs, ks = p2(inp.get("vs", 0)), p2(inp.get("ks", 0))
+    m, m2 = inp["m"], inp["m2"]
+    K = [[Fraction(v) * ks for v in r] for r in inp["K"]]; K2 = [[Fraction(v) * ks for v in r] for r in inp["K2"]]
+    how = inp["how"]; sparse = inp["sparse"]
+    kh, kw = len(K), len(K[0])
+    nun = sum(1 for r in m for b in r if not b)
+    cases, kept, bad = [], [], []
+    def unchanged(what, obj, want):
+        got = fracs(obj)
+        if got != list(want): bad.append(f"{what} was modified by the call (or is stale): {[str(x) for x in got][:12]} expected {[str(x) for x in want][:12]}")
+    mask = build_mask(aa, m, how["mask"], m2)
+    kernel = build_kernel(aa, K, how["kernel"], rng)
+    kflat = [v for r in K for v in r]; mflat = [Fraction(int(b)) for r in m for b in r]
+    def vals(n): return [v * vs for v in rand_vals(rng, n, sparse)]
+    try:
+        c = aa.Convolver(mask=mask, kernel=kernel)
+        out = ("ok", (int(c.pixels_in_mask), int(c.pixels_in_blurring_mask), [[bool(b) for b in r] for r in c.blurring_mask]))
+    except Exception as e:
+        c = None; out = ("raise", exn_name(e))
+    cases.append(f"(KInit {cmask(m)} {cqm(K)} " + cres(out, lambda v: ctup([cnat(v[0]), cnat(v[1]), cmask(v[2])])) + ")")
+    unchanged("kernel", kernel.native, kflat); unchanged("mask", np.array(mask), mflat)
+    if c is not None:
+        bm = mask.derive_mask.blurring_from(kernel_shape_native=(kh, kw)); bml = [[bool(b) for b in r] for r in np.array(bm)]
+        nb = int(bm.pixels_in_mask)
+        def conv(cv, mk, Kk, io, iv, bo, bv, tag):
+            res = cv.convolve_image(image=io, blurring_image=bo)
+            o = fracs(res.slim); kept.append((tag + " result", res, o))
+            cases.append(f"(KConvolve {cmask(mk)} {cqm(Kk)} {cqv(iv)} {cqv(bv)} {cqv(o)})")
+            unchanged(tag + " image", io.slim, iv); unchanged(tag + " blurring image", bo.slim, bv)
+        img1, bimg1 = vals(nun), vals(nb)
+        i1 = build_array(aa, img1, mask, m, how["image"], rng); b1 = build_array(aa, bimg1, bm, bml, how["image"], rng)
+        conv(c, m, K, i1, img1, b1, bimg1, "step 1")
+        img2, bimg2 = vals(nun), vals(nb)
+        i2 = build_array(aa, img2, mask, m, "plain", rng); b2 = build_array(aa, bimg2, bm, bml, "plain", rng)
+        conv(c, m, K, i2, img2, b2, bimg2, "step 2")
+        P = rng.randint(1, 3)
+        M = [vals(P) for _ in range(nun)]
+        col = zero_sum([r[0] for r in M], vs)
+        for r, v in zip(M, col): r[0] = v
+        Mo = np.array([fl(r) for r in M])
+        res = c.convolve_mapping_matrix(mapping_matrix=Mo)
+        cases.append(f"(KMatrix {cmask(m)} {cqm(K)} {cqm(M)} {cqm([fracs(r) for r in np.asarray(res)])})")
+        kept.append(("step 3 blurred mapping matrix", res, fracs(res)))
+        unchanged("mapping matrix", Mo, [v for r in M for v in r])
+        # the same image object again, through the other method
+        res = c.convolve_image_no_blurring(image=i1)
+        cases.append(f"(KNoBlur {cmask(m)} {cqm(K)} {cqv(img1)} {cqv(fracs(res.slim))})")
+        kept.append(("step 4 result", res, fracs(res.slim)))
+        unchanged("step 4 image", i1.slim, img1)
+        # in-place edits by the user, then the same objects again
+        _ = np.array(i1.native)
+        for j in range(nun):
+            if rng.random() < 0.4:
+                img1[j] = Fraction(rng.randint(-9, 9)) * vs
+                if i1.store_native:
+                    yx = [(y, x) for y in range(len(m)) for x in range(len(m[0])) if not m[y][x]][j]; i1[yx[0], yx[1]] = float(img1[j])
+                else: i1[j] = float(img1[j])
+        conv(c, m, K, i1, img1, b1, bimg1, "step 5")
+        for r in range(nun):
+            for q in range(P):
+                if rng.random() < 0.3: M[r][q] = Fraction(rng.choice([0, 0, 1, -2, 5])) * vs; Mo[r, q] = float(M[r][q])
+        res = c.convolve_mapping_matrix(mapping_matrix=Mo)
+        cases.append(f"(KMatrix {cmask(m)} {cqm(K)} {cqm(M)} {cqm([fracs(r) for r in np.asarray(res)])})")
+        # a second convolver with the same shapes but another mask and kernel, then the first one again
+        # (seed % 3: both other / the SAME mask object with another kernel / the SAME kernel object with another mask)
+        v7 = inp["seed"] % 3
+        if v7 == 1: m2 = m
+        if v7 == 2: K2 = K
+        mask2 = mask if v7 == 1 else build_mask(aa, m2, "plain", m)
+        kernel2 = kernel if v7 == 2 else build_kernel(aa, K2, "plain", rng)
+        c2 = aa.Convolver(mask=mask2, kernel=kernel2)
+        bm2 = mask2.derive_mask.blurring_from(kernel_shape_native=(kh, kw)); bml2 = [[bool(b) for b in r] for r in np.array(bm2)]
+        n2 = sum(1 for r in m2 for b in r if not b); nb2 = int(bm2.pixels_in_mask)
+        img3, bimg3 = vals(n2), vals(nb2)
+        conv(c2, m2, K2, build_array(aa, img3, mask2, m2, "plain", rng), img3, build_array(aa, bimg3, bm2, bml2, "plain", rng), bimg3, "step 7")
+        conv(c, m, K, i2, img2, b2, bimg2, "step 8")
+        unchanged("kernel", kernel.native, kflat); unchanged("mask", np.array(mask), mflat)
+    # one Kernel2D, several whole-frame convolutions (the array edited in place in between)
+    H, W = len(m), len(m[0])
+    nat = [[Fraction(rng.randint(-9, 9)) * vs for _ in range(W)] for _ in range(H)]
+    arr = aa.Array2D.no_mask(values=[fl(r) for r in nat], pixel_scales=1.0)
+    for step in range(2):
+        res = call_res(kernel.convolved_array_from, array=arr)
+        o = ("ok", fracs(res[1].slim)) if res[0] == "ok" else res
+        if res[0] == "ok": kept.append((f"whole-frame result {step}", res[1], o[1]))
+        cases.append(f"(KWhole {cmask([[False] * W for _ in range(H)])} {cqm(nat)} {cqm(K)} {cres(o, cqv)})")
+        unchanged("whole-frame array", arr.slim, [v for r in nat for v in r])
+        _ = np.array(arr.native)
+        for j in range(H * W):
+            if rng.random() < 0.4: nat[j // W][j % W] = Fraction(rng.randint(-9, 9)) * vs; arr[j] = float(nat[j // W][j % W])
+    # results handed out earlier must not change when the same objects are used again (no shared output buffers)
+    for what, obj, want in kept:
+        if fracs(obj.slim if hasattr(obj, "slim") else obj) != want: bad.append(what + " changed after later calls")
+    kept = []       # (they share the Mask2D object that is edited next)
+    # the SAME Kernel2D and Mask2D objects edited in place by the user, then used for a new whole-frame convolution and a NEW Convolver
+    # (the convolver built before the edit is not used again: its frame tables are built once per (mask, kernel) by design)
+    if c is not None:
+        K = [list(r) for r in K]; m = [list(r) for r in m]
+        for j in range(kh * kw):
+            if rng.random() < 0.5: K[j // kw][j % kw] = Fraction(rng.randint(-3, 3)) * ks; kernel[(j // kw, j % kw) if kernel.store_native else j] = float(K[j // kw][j % kw])
+        cells = [(y, x) for y in range(kh // 2, H - kh // 2) for x in range(kw // 2, W - kw // 2)]
+        for (y, x) in rng.sample(cells, min(len(cells), 2)):
+            m[y][x] = not m[y][x]
+            if all(all(r) for r in m): m[y][x] = False
+            mask[y, x] = m[y][x]
+        kflat = [v for r in K for v in r]; mflat = [Fraction(int(b)) for r in m for b in r]
+        nun = sum(1 for r in m for b in r if not b)
+        res = call_res(kernel.convolved_array_from, array=arr)
+        o = ("ok", fracs(res[1].slim)) if res[0] == "ok" else res
+        cases.append(f"(KWhole {cmask([[False] * W for _ in range(H)])} {cqm(nat)} {cqm(K)} {cres(o, cqv)})")
+        c3 = aa.Convolver(mask=mask, kernel=kernel)
+        bm3 = mask.derive_mask.blurring_from(kernel_shape_native=(kh, kw)); bml3 = [[bool(b) for b in r] for r in np.array(bm3)]
+        img4, bimg4 = vals(nun), vals(int(bm3.pixels_in_mask))
+        conv(c3, m, K, build_array(aa, img4, mask, m, "plain", rng), img4, build_array(aa, bimg4, bm3, bml3, "plain", rng), bimg4, "step 10")
+    nat2 = [[Fraction(rng.randint(-9, 9)) * vs for _ in range(W)] for _ in range(H)]
+    marr = build_array(aa, [nat2[y][x] for y in range(H) for x in range(W) if not m[y][x]], mask, m, how["image"], rng)
+    res = call_res(kernel.convolved_array_with_mask_from, array=np.array([fl(r) for r in nat2]), mask=mask) if inp["seed"] % 2 else \
+        call_res(kernel.convolved_array_from, array=marr)
+    if not inp["seed"] % 2: nat2 = [[Fraction(0) if m[y][x] else nat2[y][x] for x in range(W)] for y in range(H)]
+    o = ("ok", fracs(res[1].slim)) if res[0] == "ok" else res
+    cases.append(f"(KWhole {cmask(m)} {cqm(nat2)} {cqm(K)} {cres(o, cqv)})")
+    unchanged("kernel", kernel.native, kflat); unchanged("mask", np.array(mask), mflat)
+    nontrivial = nun >= 2 and sum(1 for v in kflat if v != 0) > 1
+    return {"coq": cases[0], "extra_coq": cases[1:], "py_ok": (False if bad else None), "kind": "hist", "nontrivial": nontrivial,
+            "out": {"steps": len(cases), "modified": bad}, "detail": {"modified": bad}}
+
+# ------------------------------------------------------------------ simulator -> apply_mask -> convolver
+def pad_native(g, hy, hx, fill):
+    W = len(g[0])
+    return [[fill] * (W + 2 * hx) for _ in range(hy)] + [[fill] * hx + list(r) + [fill] * hx for r in g] + \
+           [[fill] * (W + 2 * hx) for _ in range(hy)]
+
+def run_sim(aa, inp):
+    import random
+    rng = random.Random(1)
+    K = [[Fraction(v) for v in r] for r in inp["K"]]
+    kh, kw = len(K), len(K[0])
+    images = [[[Fraction(v) for v in r] for r in im] for im in inp["images"]]
+    H, W = len(images[0]), len(images[0][0])
+    sky = Fraction(inp["sky"]); normalize = inp["normalize"]
+    subtract = True if inp["subtract"] is None else inp["subtract"]
+    kernel = aa.Kernel2D.no_mask(values=[fl(r) for r in K], pixel_scales=1.0)
+    kw_args = dict(exposure_time=inp["exposure"], background_sky_level=float(sky), psf=kernel, normalize_psf=normalize,
+                   add_poisson_noise_to_data=False, include_poisson_noise_in_noise_map=inp["include_pn"], noise_seed=inp["noise_seed"])
+    if inp["subtract"] is not None: kw_args["subtract_background_sky"] = inp["subtract"]
+    if inp["noise_false"] is not None: kw_args["noise_if_add_noise_false"] = inp["noise_false"]
+    sim = aa.SimulatorImaging(**kw_args)
+    cases, bad = [], []
+    if fracs(kernel.native) != [v for r in K for v in r]: bad.append("the caller's kernel was modified by SimulatorImaging(...)")
+    s = sum(v for r in K for v in r)
+    P = [[v / s for v in r] for r in K] if normalize else K          # the PSF the dataset must carry (checked by KSim's spec)
+    def make(im, how):
+        flat = [v for r in im for v in r]
+        if how == "arith":
+            A = [Fraction(rng.randint(0, 5)) for _ in flat]
+            return aa.Array2D.no_mask(values=np.array(fl(A)).reshape(H, W), pixel_scales=1.0) + \
+                   aa.Array2D.no_mask(values=np.array(fl([v - a for v, a in zip(flat, A)])).reshape(H, W), pixel_scales=1.0)
+        if how == "native":
+            return aa.Array2D(values=np.array([fl(r) for r in im]), mask=aa.Mask2D.all_false(shape_native=(H, W), pixel_scales=1.0),
+                              store_native=True)
+        return aa.Array2D.no_mask(values=[fl(r) for r in im], pixel_scales=1.0)
+    objs = [make(images[0], inp["img_how"])] + [make(im, "plain") for im in images[1:]]
+    order = [0] if len(images) == 1 else [0, 1, 0]
+    ds = None; data0 = None; keep = []
+    for idx in order:                       # the same simulator, the same input objects
+        res = call_res(sim.via_image_from, image=objs[idx])
+        if res[0] == "ok":
+            d = res[1]
+            out = ("ok", ([fracs(r) for r in np.array(d.psf.native)], fracs(d.data.slim)))
+            if d.data.shape_native != (H, W): bad.append(f"simulated data has shape {d.data.shape_native}, image {(H, W)}")
+            if idx == 0: ds, data0 = d, out[1][1]
+            keep.append((d, out[1][1]))
+        else: out = res
+        cases.append(f"(KSim {cq(sky)} {cbool(subtract)} {cbool(normalize)} {cqm(images[idx])} {cqm(K)} " +
+                     cres(out, lambda v: ctup([cqm(v[0]), cqv(v[1])])) + ")")
+        if fracs(objs[idx].slim if not objs[idx].store_native else objs[idx].native) != [v for r in images[idx] for v in r]:
+            bad.append("the caller's image was modified by via_image_from")
+    detail = {"residual_max": []}
+    if ds is not None and len(data0) == H * W:
+        image = images[0]
+        dsm_prev = None; mobj = None
+        for j, m in enumerate(inp["masks"]):
+            if inp["remask"] == "inplace" and mobj is not None:
+                for y in range(H):
+                    for x in range(W):
+                        if bool(mobj[y, x]) != m[y][x]: mobj[y, x] = m[y][x]
+            else:
+                mobj = aa.Mask2D(mask=np.array(m, dtype=bool), pixel_scales=1.0)
+            src = dsm_prev if (inp["remask"] == "chain" and dsm_prev is not None) else ds
+            dsm = src.apply_mask(mask=mobj)
+            dsm_prev = dsm
+            pad = not footprints_inside(m, kh, kw)
+            hy, hx = (kh // 2, kw // 2) if pad else (0, 0)
+            mp = pad_native(m, hy, hx, True); gp = pad_native(image, hy, hx, Fraction(0))
+            got_mask = [[bool(b) for b in r] for r in np.array(dsm.mask)]
+            if got_mask != mp:
+                bad.append(f"masked dataset's mask differs from the applied mask ({'padded by the kernel half-widths' if pad else 'no padding expected'})")
+                continue
+            md = fracs(dsm.data.slim)
+            cases.append(f"(KMasked {cqm(image)} {cqv(data0)} {cmask(m)} {cqv(md)})")
+            if subtract or sky == 0:
+                # the masked data = the whole-frame convolution of the generating image at the unmasked pixels
+                cases.append(f"(KWhole {cmask(mp)} {cqm(gp)} {cqm(P)} (Ok {cqv(md)}))")
+            bm = dsm.mask.derive_mask.blurring_from(kernel_shape_native=(kh, kw)); bml = [[bool(b) for b in r] for r in np.array(bm)]
+            Hp, Wp = len(mp), len(mp[0])
+            todo = [gp] + ([pad_native(images[1], hy, hx, Fraction(0))] if (j == 0 and len(images) > 1) else [])
+            for t, g in enumerate(todo):       # dsm.convolver: read once per call (cached property), used for two different images
+                iv = [g[y][x] for y in range(Hp) for x in range(Wp) if not mp[y][x]]
+                bv = [g[y][x] for y in range(Hp) for x in range(Wp) if not bml[y][x]]
+                blurred = dsm.convolver.convolve_image(image=aa.Array2D(values=fl(iv), mask=dsm.mask),
+                                                       blurring_image=aa.Array2D(values=fl(bv), mask=bm) if bv else aa.Array2D(values=np.zeros(0), mask=bm))
+                bo = fracs(blurred.slim)
+                cases.append(f"(KConvolve {cmask(mp)} {cqm(P)} {cqv(iv)} {cqv(bv)} {cqv(bo)})")
+                if t == 0 and (subtract or sky == 0):
+                    resid = [a - b for a, b in zip(md, bo)]
+                    detail["residual_max"].append(str(max([abs(r) for r in resid], default=0)))
+                    if len(md) != len(bo) or any(r != 0 for r in resid):
+                        bad.append(f"non-zero residual of the generating image on mask {j}: max {max(abs(r) for r in resid) if resid else 'length mismatch'}")
+    for d, want in keep:
+        if fracs(d.data.slim) != want: bad.append("a dataset simulated earlier changed after later calls")
+    detail["modified_or_residual"] = bad
+    return {"coq": cases[0], "extra_coq": cases[1:], "py_ok": (False if bad else True), "kind": "sim", "nontrivial": True,
+            "out": {"cases": len(cases), "problems": bad}, "detail": detail}
 
 def run_simulate(aa, inp):
     """noise-free simulation -> apply_mask -> convolver: the generating image is fitted with zero residual (Python-side relation)"""
